@@ -1,0 +1,45 @@
+//go:build verif
+
+package kubeeventsmanager
+
+import (
+	"sort"
+
+	"github.com/deckhouse/deckhouse/pkg/log"
+	"k8s.io/apimachinery/pkg/apis/meta/v1/unstructured"
+
+	kemtypes "github.com/flant/shell-operator/pkg/kube_events_manager/types"
+	"github.com/flant/shell-operator/pkg/metric"
+)
+
+// VerifInformer exposes one resourceInformer (no cluster behind it) to the verification harness:
+// the harness plays the informer's callback thread, the snapshot readers and the unlock itself.
+type VerifInformer struct{ ei *resourceInformer }
+
+func VerifNewInformer(mc *MonitorConfig, mstor metric.Storage, cb func(kemtypes.KubeEvent)) *VerifInformer {
+	ei := newResourceInformer("default", "", &resourceInformerConfig{
+		mstor: mstor, eventCb: cb, monitor: mc, logger: log.NewNop(),
+	})
+	return &VerifInformer{ei: ei}
+}
+
+func (v *VerifInformer) HandleWatchEvent(obj *unstructured.Unstructured, t kemtypes.WatchEventType) {
+	v.ei.handleWatchEvent(obj, t)
+}
+
+func (v *VerifInformer) GetCachedObjects() []kemtypes.ObjectAndFilterResult {
+	return v.ei.getCachedObjects()
+}
+
+func (v *VerifInformer) EnableKubeEventCb() { v.ei.enableKubeEventCb() }
+
+// VerifDump reads the state without taking locks: the harness calls it only while every other
+// goroutine of the case is parked at a yield point or finished.
+func (v *VerifInformer) VerifDump() (cache []string, buf []kemtypes.KubeEvent, enabled bool) {
+	for k, o := range v.ei.cachedObjects {
+		cache = append(cache, k+"@"+o.Metadata.Checksum)
+	}
+	sort.Strings(cache)
+	buf = append(buf, v.ei.eventBuf...)
+	return cache, buf, v.ei.eventCbEnabled
+}
